@@ -16,6 +16,7 @@ STATS = {'modules': 0, 'fstrings_stubbed': 0, 'fstrings_kept': 0}
 class _Stub(ast.NodeTransformer):
     def __init__(self, whole_module):
         self.depth = 1 if whole_module else 0
+        self.whole = whole_module
 
     def _enter(self, node):
         self.depth += 1
@@ -29,6 +30,10 @@ class _Stub(ast.NodeTransformer):
     def visit_Call(self, node):
         f = node.func
         name = f.attr if isinstance(f, ast.Attribute) else f.id if isinstance(f, ast.Name) else ''
+        if self.whole and isinstance(f, ast.Name) and name in ('str', 'repr') and len(node.args) == 1:
+            # utils/exceptions.py: str(origin_exc) / repr(value) only build diagnostic text
+            STATS['fstrings_stubbed'] += 1
+            return ast.copy_location(ast.Constant('<msg>'), node)
         if name in ('warn', 'collect_waring', 'warning_settings') or name.endswith('Error') or name in (
                 'InvalidInstance', 'InvalidSubclass'):
             return self._enter(node)
